@@ -273,7 +273,7 @@ func (s *FlatSpec) Explore(c *Ctx, prefix json.RawMessage, split bool) (children
 			rp, _ := json.Marshal(flatReplay{Unit: s.UnitName, Case: i})
 			v.Replay = rp
 			v.Stable = true
-			for k := 0; k < 4 && v.Stable; k++ {
+			for k := 0; k < 4 && v.Stable && !v.Once; k++ {
 				_, _, _, again := s.Case(i)
 				ok := false
 				for _, o := range again {
